@@ -201,7 +201,7 @@ func check(c optCase) outcome {
 		}
 		gv, rv, ge, re := got.Vals, ref.Vals, got.Err, ref.Err
 		gk, rk := diff.ErrKey(ge), diff.ErrKey(re)
-		if knownWrap && m&gojq.VerifOptConstSetpath != 0 && plainAssign(c.Query) && (!univ.EqualStreams(gv, rv) || gk != rk) {
+		if knownWrap && !replaying && m&gojq.VerifOptConstSetpath != 0 && plainAssign(c.Query) && (!univ.EqualStreams(gv, rv) || gk != rk) {
 			// known finding F17 (structural class: the constant-path setpath
 			// switch is toggled on a program with a plain assignment): the
 			// shortcut words the same failure differently; compare modulo
@@ -209,6 +209,16 @@ func check(c optCase) outcome {
 			gv, rv = canonAll(gv), canonAll(rv)
 			gk, rk = canonStr(gk), canonStr(rk)
 			rec.Excluded("C04/const-setpath-error-wording")
+		}
+		if knownConstIdentity && !replaying && m&(gojq.VerifOptConstArray|gojq.VerifOptConstObject) != 0 && (gk != rk || !univ.EqualStreams(gv, rv)) &&
+			(strings.Contains(gk, "invalid path") || strings.Contains(errOrValues(gv), "invalid path")) && !strings.Contains(rk, "invalid path") {
+			// known finding F21 (structural class: constant folding of array/object
+			// literals is toggled and the unfolded program reports an invalid
+			// path): a folded literal evaluated twice is one Go object, so
+			// path() regards navigation from it as reached from the input when
+			// the location holds that same constant (jq 1.6 behaves alike)
+			rec.Excluded("C04/folded-literal-identity")
+			continue
 		}
 		if !univ.EqualStreams(gv, rv) {
 			return outcome{msg: fmt.Sprintf("outputs differ between all-on and %s:\n  all-on %s err=%v\n  %s %s err=%v", maskName(m), univ.ShowAll(ref.Vals), ref.Err, maskName(m), univ.ShowAll(got.Vals), got.Err)}
@@ -292,7 +302,17 @@ func canonAll(vs []any) []any {
 	return out
 }
 
-var knownWrap bool
+var knownWrap, knownConstIdentity, replaying bool
+
+func errOrValues(vs []any) string {
+	var sb strings.Builder
+	for _, v := range vs {
+		if s, ok := v.(string); ok {
+			sb.WriteString(s)
+		}
+	}
+	return sb.String()
+}
 
 func judge(sub string, c optCase) string {
 	rec.Eval()
@@ -335,6 +355,8 @@ func replayCase(sub string, raw json.RawMessage) string {
 	if err := json.Unmarshal(raw, &c); err != nil {
 		return "bad replay: " + err.Error()
 	}
+	replaying = true // class exclusions do not apply to replayed cases
+	defer func() { replaying = false }()
 	return check(c).msg
 }
 
@@ -378,6 +400,7 @@ func TestC04(t *testing.T) {
 		t.Fatal(err)
 	}
 	knownWrap = rec.KnownClass("C04/const-setpath-error-wording")
+	knownConstIdentity = rec.KnownClass("C04/folded-literal-identity")
 	rec.Replays(replayCase)
 	if rec.ReplayPath() != "" {
 		return
